@@ -1627,6 +1627,7 @@ def spatial_derivatives(
                 denom = denom.reshape((N,) + (1,) * (deriv.ndim - 1))
                 deriv = deriv.div_(denom.to(deriv))
             derivs[code] = deriv
+        derivs = {key: derivs[SpatialDerivativeKeys.sorted(key)] for key in which}
 
     elif mode == "gaussian":
 
